@@ -1,0 +1,23 @@
+//go:build !go1.20
+// +build !go1.20
+
+package cache
+
+// deleteEntry removes the entry that was inspected.
+//
+// sync.Map.CompareAndDelete is not available before go1.20, so an entry that
+// was replaced concurrently is put back unless it was replaced once more.
+func (c *syncMap) deleteEntry(key, entry interface{}) bool {
+	cur, loaded := c.data.LoadAndDelete(key)
+	if !loaded {
+		return false
+	}
+
+	if cur != entry {
+		c.data.LoadOrStore(key, cur)
+
+		return false
+	}
+
+	return true
+}
